@@ -873,7 +873,7 @@ fn gen_tree(r: &mut Rng) -> (Tree, BTreeSet<String>) {
                     Some(k) => w[..=k].to_string(),
                     None => String::new(),
                 };
-                let last = *r.pick(&["missing.ledger", "nomatch-*.ledger", "*.nothing", "?.nope", ".h*.nope", "[0-9].nope", "no[!a-z]match.ledger", "[z-a].ledger", "q[5-9].nope", "[!a]"][..]);
+                let last = *r.pick(&["missing.ledger", "nomatch-*.ledger", "*.nothing", "?.nope", ".h*.nope", "[0-9].nope", "no[!a-z]match.ledger", "[z-a].ledger", "q[5-9].nope", "[!a].nope"][..]);
                 t.files[fi].1[ei] = AEntry::Inc(format!("{}{}", dirpart, last));
                 t.kind = 1;
                 tags.insert("include:matches nothing".into());
